@@ -234,17 +234,18 @@ Fixpoint subseqb (a b : list entry) : bool :=
   end.
 
 (* garbage collection (a multi-input compaction into the last level): the outputs hold a
-   subsequence of the sorted merge of the inputs, and for every key the newest version among the
-   inputs is kept, unless it is a tombstone and NO version of that key is kept.  This is what
-   every `versions = N` policy (N >= 1) does (area Gc proves it of the collector). *)
+   subsequence of the sorted merge of the inputs, and for every key the newest version KEPT shows
+   what the newest version among the inputs showed (a value, or nothing: a tombstone and an absent
+   key both read as nothing).  Every `versions = N` policy (N >= 1) does this (area Gc proves it
+   of the collector): it may replace a run of tombstones by the oldest one of the run, or drop a
+   tombstone together with every older version. *)
+Definition shown (o : option entry) : option (list N) := match o with Some e => ev e | None => None end.
+Definition opt_bytes_eqb (a b : option (list N)) : bool :=
+  match a, b with None, None => true | Some p, Some q => key_eqb p q | _, _ => false end.
 Definition gc_heads_okb (E O : list entry) : bool :=
   forallb (fun e =>
-    match find (fun x => key_eqb (ek x) (ek e)) E with
-    | Some h => existsb (entry_eqb h) O ||
-                (match ev h with None => true | Some _ => false end &&
-                 negb (existsb (fun o => key_eqb (ek o) (ek h)) O))
-    | None => true
-    end) E.
+    opt_bytes_eqb (shown (find (fun x => key_eqb (ek x) (ek e)) E))
+                  (shown (find (fun x => key_eqb (ek x) (ek e)) O))) E.
 Definition gc_outputs_okb (v : version) (c : compaction) (outs : list file) : bool :=
   let E := sort_entries (input_entries v c) in
   let O := flat_map fents outs in
